@@ -6,7 +6,7 @@ import ast
 from ..loader import AnalysisError, dotted, norm, walk_no_defs
 from ..paths import Executor, Semantics
 from ..report import RuleReport
-from ..rules.common import _bindings
+from ..rules.common import _bindings, through_locals
 
 LEVEL = 'other'
 TECHNIQUE = ('static: ownership/linearity analysis of the refill loop (every drawn task is submitted and registered, a future '
@@ -80,13 +80,13 @@ def r1_draw_submit(a, tier):
         elif isinstance(n, ast.For) and draws(n.iter):
             sites += 1
             tv = norm(n.target)
-            sub = [c for c in ast.walk(n) if isinstance(c, ast.Assign) and isinstance(c.value, ast.Call) and dotted(c.value.func).endswith('.submit')
-                   and len(c.value.args) >= 2 and norm(c.value.args[1]) == tv]
-            reg = False
-            for s in sub:
-                fv = norm(s.targets[0])
-                reg = any(isinstance(c, ast.Assign) and isinstance(c.targets[0], ast.Subscript) and norm(c.targets[0].value) == pending
-                          and norm(c.targets[0].slice) == fv for c in ast.walk(n))
+            def is_submit(e) -> bool:
+                e = through_locals(fn, e)
+                return isinstance(e, ast.Call) and dotted(e.func).endswith('.submit') and len(e.args) >= 2 and norm(e.args[1]) == tv
+            sub = [c for c in ast.walk(n) if isinstance(c, ast.Call) and is_submit(c)]
+            # registered: <pending>[<the future of that submit>] = ...   (the future named by a local or written in place)
+            reg = any(isinstance(c, ast.Assign) and isinstance(c.targets[0], ast.Subscript) and norm(c.targets[0].value) == pending
+                      and is_submit(c.targets[0].slice) for c in ast.walk(n))
             rep.add({'draw_site': f'for {tv} in {norm(n.iter)}', 'submitted': bool(sub), 'registered_in_pending_map': reg})
             if not (sub and reg):
                 rep.fail(fn.qualname, f'draw:{norm(n.iter)}', f'the loop `for {tv} in {norm(n.iter)}` draws a task that is not both submitted '
@@ -225,6 +225,13 @@ def r4_same_worker(a, tier):
     task_lists = {t.id for n in walk_no_defs(fn.node) if isinstance(n, (ast.Assign, ast.AnnAssign)) and n.value is not None
                   for t in ([n.target] if isinstance(n, ast.AnnAssign) else n.targets) if isinstance(t, ast.Name)
                   and any(isinstance(x, ast.Call) and dotted(x.func) == 'Task' for x in ast.walk(n.value))}
+    for n in walk_no_defs(fn.node):
+        # tasks.append(Task(...)) / tasks += [Task(...)]
+        if isinstance(n, ast.Call) and isinstance(n.func, ast.Attribute) and n.func.attr in ('append', 'extend') and isinstance(n.func.value, ast.Name) \
+                and any(isinstance(x, ast.Call) and dotted(x.func) == 'Task' for a_ in n.args for x in ast.walk(a_)):
+            task_lists.add(n.func.value.id)
+        if isinstance(n, ast.AugAssign) and isinstance(n.target, ast.Name) and any(isinstance(x, ast.Call) and dotted(x.func) == 'Task' for x in ast.walk(n.value)):
+            task_lists.add(n.target.id)
     if not task_lists:
         raise AnalysisError('parproc: the list of Task(...) objects bound to a local was not found')
     pmaps = {t.id for n in walk_no_defs(fn.node) if isinstance(n, ast.Assign) and isinstance(n.value, ast.Call)
